@@ -383,6 +383,18 @@ fn one_mrhs<T: Sc>(out: &mut Out, rng: &mut Rng, thorough: bool, i: usize) {
             let c2 = c.y.column(0) * T::of(2.0) - c.y.column(1);
             c.y.set_column(2, &c2);
         }
+        4 if c.y.ncols() >= 2 && (i / 5) % 2 == 0 => {
+            // right-hand sides of wildly different magnitude (exact powers of two): the columns are
+            // independent problems, a common scale must not couple them
+            let big: i32 = if T::WIDTH == 32 { 60 } else { 600 };
+            let ncol = c.y.ncols();
+            for j in 0..ncol {
+                let e = if j % 2 == 0 { big } else { -big };
+                let f = T::of(2f64.powi(e));
+                let col = c.y.column(j) * f;
+                c.y.set_column(j, &col);
+            }
+        }
         3 if c.y.ncols() >= 2 => {
             // an all-zero observation column (first, last or in the middle): its coefficients, residual
             // block and Jacobian blocks are exactly zero and must stay in ITS slots
